@@ -153,7 +153,7 @@ def main():
     if "--replay" in sys.argv:
         return replay(sys.argv[sys.argv.index("--replay") + 1])
     ck = Check("C07")
-    ck.prove(PROP)
+    ck.prove(PROP, allow_axioms=REAL_AXIOMS)
     impl = Impl()
     from tlexport import cipher_suite_parser as csp
     table = tlsgen.suite_table(csp)
